@@ -128,11 +128,14 @@ class Recorder(object):
         self.enumerated = {}
         self.excluded = Counter()
         self.subchecks = Counter()
+        self.subseconds = Counter()     # CPU seconds spent in check() per sub-check (this shard)
         self._sample_counts = {}
 
     # -- recording --------------------------------------------------------
     def record(self, case, sub="main"):
+        t_start = time.time()
         res = safe_check(self.mod, case)
+        self.subseconds[sub] += time.time() - t_start
         if isinstance(res, dict):       # harness problem, not a property violation
             if len(self.harness_errors) < 3:
                 self.harness_errors.append(res)
@@ -230,6 +233,7 @@ class Recorder(object):
             "enumerated": self.enumerated,
             "excluded": dict(self.excluded),
             "subchecks": dict(self.subchecks),
+            "subseconds": dict(self.subseconds),
         }
 
 
@@ -519,6 +523,7 @@ def run_check(prop_id, tier, nshards=None, replay=None):
     labels = Counter()
     excluded = Counter()
     subchecks = Counter()
+    subseconds = Counter()
     enumerated = {}
     samples = []
     buckets = {}
@@ -527,6 +532,7 @@ def run_check(prop_id, tier, nshards=None, replay=None):
         labels.update(r["labels"])
         excluded.update(r["excluded"])
         subchecks.update(r["subchecks"])
+        subseconds.update(r.get("subseconds") or {})
         for k, v in r["enumerated"].items():
             enumerated[k] = v
         for s in r["samples"]:
@@ -587,6 +593,7 @@ def run_check(prop_id, tier, nshards=None, replay=None):
             "samples": samples,
             "classes": dict(sorted(labels.items())),
             "subchecks": dict(sorted(subchecks.items())),
+            "subcheck_cpu_seconds": dict((k, round(v, 1)) for k, v in sorted(subseconds.items())),
             "enumerated": enumerated,
             "exhaustive": False,
             "excluded_by_known_finding": dict(excluded),
